@@ -118,3 +118,8 @@ func (s *Server) Check(Abytes, M1 []byte) error {
 	}
 	return nil
 }
+
+// SafePrimeAllGenerators is a 2048-bit safe prime p = 2q+1 (p and q prime; checked independently with sympy) with
+// p mod 8 = 7, p mod 3 = 2, p mod 5 = 4, p mod 7 = 3: every generator g in 2..7 passes the conditions Telegram's
+// specification puts on (g, p). Found by cmd/safeprime. A server may choose such a group instead of the usual prime.
+var SafePrimeAllGenerators, _ = new(big.Int).SetString("f496660ef8bc0e0915c3b1ad003b74b5d06ba6d0bcaf82761b6103dc6e12c56781e6edc061ef93a3e83e097831aebd523290cf9858c7c4b9e23f2bd7841ef59f95cc11c10da4d31bbc868b4612fbf3ea9eac877a314df15d45d2ddb9301e7c300d759460e75637b287464ea8ebd7060500d1eeddf64aaec71a0c24e1f74b9b8a3be30eece53d38a5375d3e728c0dc864cf08a070dc3828165ec07c951d167c7ecb04794b1c86261f1ceeb40823b850ffd98a6480c10771c1fbd399741bfee66104cfe9700face5800f6efc1527c9822bd04ee49e1482776dbe4180453251974325b6cf4653bc757932bbd105e1dbb8c15440333c515d48ab1534fa5e390abcef", 16)
